@@ -106,15 +106,17 @@ package keymap
 //@   let u = m.keys.buf
 //@   let typed = len(m.keys.macroKeys) == 0
 //@   ensures [consumed-in-order] typed ==> len(result2) <= len(u) && result2 == u[:len(result2)] && m.keys.buf == u[len(result2):]
-//@   ensures [matched-is-read] result3 == result2[:len(result3)] && (len(result3) == len(result2) || len(result3) + 1 == len(result2))
+//@   ensures [matched-is-read] len(result3) <= len(result2) && result3 == result2[:len(result3)]
 //@   ensures [prefix-waits] typed && result1 ==> len(m.keys.buf) == 0 && len(result3) == len(result2) && len(result2) > 0 && bprefix(binds, result2)
 //@   ensures [exact-runs-its-bind] typed && !result1 && len(result2) > 0 && len(result3) == len(result2) ==> !bprefix(binds, result2) && anykey(s, binds, conv(s) == result2 && result0 == binds[s])
-//@   ensures [rejected-key] typed && !result1 && len(result3) < len(result2) ==> !bprefix(binds, result2) && (len(result0.Action) == 0 || result0 == old(m.prefixed) || any(j, 1, len(result2), anykey(s, binds, conv(s) == result2[:j] && result0 == binds[s])))
-//@   ensures [returns-active] result0 == m.active
-//@   ensures [no-keys-no-command] len(u) == 0 && typed ==> len(result0.Action) == 0
+//@   ensures [rejected-key] typed && !result1 && len(result3) < len(result2) ==> !bprefix(binds, result2) && (len(result0.Action) == 0 || (result0 == old(m.prefixed) && len(result3) == 0) || (len(result3) >= 1 && anykey(s, binds, conv(s) == result3 && result0 == binds[s])))
+//@   ensures [rejected-unbound] typed && !result1 && len(result3) < len(result2) && len(result0.Action) == 0 ==> len(result3) + 1 == len(result2)
+//@   ensures [returns-active] len(result2) > 0 ==> result0 == m.active
+//@   ensures [no-keys-no-command] len(result2) == 0 ==> len(result0.Action) == 0 && !result0.Macro && !result1
+//@   ensures [reads-something] typed ==> (len(result2) == 0 <==> len(u) == 0)
 //@   loop 1 invariant m != nil && m.keys != nil && matched == read && (typed ==> len(m.keys.macroKeys) == 0 && len(read) <= len(u) && read == u[:len(read)] && m.keys.buf == u[len(read):])
-//@   loop 1 invariant typed ==> (len(read) == 0 && !prefix && m.prefixed == old(m.prefixed)) || (len(read) > 0 && prefix && bprefix(binds, read) && (m.prefixed == old(m.prefixed) || any(j, 1, len(read) + 1, anykey(s, binds, conv(s) == read[:j] && m.prefixed == binds[s]))))
-//@   loop 1 invariant m.active == old(m.active)
+//@   loop 1 invariant typed ==> (len(read) == 0 && !prefix && m.prefixed == old(m.prefixed) && kept == 0) || (len(read) > 0 && prefix && bprefix(binds, read) && 0 <= kept && kept <= len(read) && ((m.prefixed == old(m.prefixed) && kept == 0) || (kept >= 1 && anykey(s, binds, conv(s) == read[:kept] && m.prefixed == binds[s]))))
+//@   loop 1 invariant m.active == old(m.active) && 0 <= kept && kept <= len(matched)
 //@   loop 1 decreases len(m.keys.buf) + len(m.keys.macroKeys)
 
 //@ func (*Engine).IsEmacs
